@@ -16,8 +16,9 @@ PY = os.path.join(ROOT, '.venv', 'bin', 'python')
 class Ob:
     """one proof obligation: a harness function explored over all its feasible paths"""
     def __init__(self, name, fn, budget_s=120, bounds='', functions=(), outside='', stubs=(), max_paths=500000,
-                 validate=6, expect_paths_min=1):
+                 validate=6, expect_paths_min=1, optimize=0):
         self.name = name
+        self.optimize = optimize        # 1: the cardutil modules are compiled as under python -O (asserts removed); replays run under python -O
         self.fn = fn
         self.budget_s = budget_s
         self.bounds = bounds
@@ -51,6 +52,31 @@ def unjson(x):
     return x
 
 
+OPT_SUFFIX = '/python-O'
+
+
+def all_obligations(mod, tier):
+    """the obligations of a harness module plus, for the names it lists in PYTHON_O, a twin explored with the cardutil modules compiled
+    as `python -O` compiles them (assert statements removed, __debug__ False)"""
+    obs = list(mod.obligations(tier))
+    want = getattr(mod, 'PYTHON_O', ())
+    twins = []
+    for o in obs:
+        if o.optimize or o.name.endswith(OPT_SUFFIX):
+            continue
+        if any((w == o.name) or (w.endswith('*') and o.name.startswith(w[:-1])) for w in want):
+            t = Ob(o.name + OPT_SUFFIX, o.fn, o.budget_s, o.bounds + ' [under python -O]', o.functions, o.outside, o.stubs, o.max_paths,
+                   o.validate, o.expect_paths_min, optimize=1)
+            twins.append(t)
+    return obs + twins
+
+
+def _mark_mode(x):
+    if isinstance(x, dict) and 'kind' in x and 'args' in x:
+        x.setdefault('mode', '-O')
+    return x
+
+
 def _run_one(prop, tier, name, seed):
     """worker: run one obligation in this process"""
     t0 = time.time()
@@ -61,8 +87,10 @@ def _run_one(prop, tier, name, seed):
         sys.path.insert(0, ROOT)
         from vsym import core, loader
         mod = importlib.import_module('harness.' + prop.lower())
-        obs = {o.name: o for o in mod.obligations(tier)}
+        obs = {o.name: o for o in all_obligations(mod, tier)}
         ob = obs[name]
+        from harness import common as _common
+        _common.DEFAULT_OPT[0] = 1 if ob.optimize else 0
         out['bounds'] = ob.bounds
         out['outside'] = ob.outside
         out['stubs'] = list(ob.stubs)
@@ -107,6 +135,12 @@ def _run_one(prop, tier, name, seed):
             elif kind == 'fuel':
                 out['violations'].append({'msg': 'loop budget exhausted outside a harness guard', 'key': None, 'replay': None})
         out['requires'] = nreq
+        if ob.optimize:
+            for info in out['oks']:
+                if isinstance(info, dict):
+                    _mark_mode(info.get('replay'))
+            for v in out['violations']:
+                _mark_mode(v.get('replay'))
         if ex.inconclusive:
             out['inconclusive_reason'] = ex.inconclusive
         if out['violations']:
@@ -179,7 +213,7 @@ def check(prop, tier, seed=0, only=None, jobs=None):
     t0 = time.time()
     sys.path.insert(0, ROOT)
     mod = importlib.import_module('harness.' + prop.lower())
-    obs = mod.obligations(tier)
+    obs = all_obligations(mod, tier)
     if only:
         obs = [o for o in obs if any(s in o.name for s in only)]
     names = [o.name for o in obs]
